@@ -480,7 +480,9 @@ func genCase(t *rapid.T) (*qcase, map[string]int) {
 	x.deep = x.maxDepth > 1 && x.pct(70, "deep-mode")
 	x.holeP = []int{8, 15, 25}[x.intn(3, "holeP")]
 	x.avoidEmptyList = rec.Known("F-C21-2")
-	x.avoidVarCount = rec.Known("F-C21-3")
+	// VERIF_C21_ASSUME_FIXED=F-C21-3 switches this exclusion off, to try a proposed fix
+	// in a scratch worktree before known_findings.json changes
+	x.avoidVarCount = rec.Known("F-C21-3") && !strings.Contains(","+os.Getenv("VERIF_C21_ASSUME_FIXED")+",", ",F-C21-3,")
 	x.excluded = rec.Excluded
 	x.known = rec.Known
 	d := 1 + x.intn(3, "size")
